@@ -4,6 +4,7 @@ import (
 	"encoding/json"
 	"fmt"
 	"strings"
+	"unicode"
 )
 
 // Structured pug documents: every JavaScript snippet is a tree, so that the Lean model receives trees and the
@@ -11,6 +12,7 @@ import (
 
 // ---- expression constructors ----
 func eNum(v string) J               { return J{"t": "num", "v": v} }
+func eNumSrc(v, src string) J       { return J{"t": "num", "v": v, "src": src} }
 func eStr(v string) J               { return J{"t": "str", "v": v} }
 func eBool(v bool) J                { return J{"t": "bool", "v": v} }
 func eNull() J                      { return J{"t": "null"} }
@@ -139,7 +141,7 @@ func isIdent(s string) bool {
 		return false
 	}
 	for i, r := range s {
-		if !(r == '_' || r == '$' || (r >= 'a' && r <= 'z') || (r >= 'A' && r <= 'Z') || (i > 0 && r >= '0' && r <= '9')) {
+		if !(r == '_' || r == '$' || unicode.IsLetter(r) || (i > 0 && r >= '0' && r <= '9')) { // ES5 IdentifierName: Unicode letters
 			return false
 		}
 	}
@@ -156,6 +158,9 @@ func paren(s string, yes bool) string {
 func printExpr(e J) string {
 	switch e["t"] {
 	case "num":
+		if src, ok := e["src"].(string); ok {
+			return src // the author's spelling of the literal (1.0, .5, 1e3, 0x10); "v" is its value in plain decimal
+		}
 		return e["v"].(string)
 	case "str":
 		return jsQuote(e["v"].(string))
